@@ -480,6 +480,12 @@ func TestVerifC10(t *testing.T) {
 		case "link":
 			c.Steps = append(c.Steps, advStep{At: fl.at, Kind: "link"})
 			expect = "redial"
+		case "linkondial":
+			// the link changes right after the connection was established, before
+			// the task's watcher exists: the event is queued and must still tear the
+			// task down as soon as it runs
+			c.LinkOnDial = 1
+			expect = "redial"
 		case "watchclose":
 			c.Steps = append(c.Steps, advStep{At: fl.at, Kind: "watchclose"})
 		}
@@ -638,10 +644,10 @@ func TestVerifC10(t *testing.T) {
 
 	kinds := []string{"read:syscall", "read:perm", "read:other", "timeouts:1", "timeouts:2", "timeouts:3", "timeouts:4", "timeouts:5", "timeouts:6",
 		"timeoutsinv:1", "timeoutsinv:3", "timeoutsinv:4", "timeoutsinv:5",
-		"write:nobufs", "write:perm", "write:other", "writepending:nobufs", "writepending:other", "writeall:nobufs", "writeall:perm", "link", "watchclose"}
+		"linkondial", "write:nobufs", "write:perm", "write:other", "writepending:nobufs", "writepending:other", "writeall:nobufs", "writeall:perm", "link", "watchclose"}
 	// the same read-side faults against a Monitor task
 	mreps := r.Pick(4, 40)
-	for _, k := range []string{"read:syscall", "read:perm", "read:other", "timeouts:1", "timeouts:4", "timeouts:5", "timeouts:6", "link", "watchclose"} {
+	for _, k := range []string{"read:syscall", "read:perm", "read:other", "timeouts:1", "timeouts:4", "timeouts:5", "timeouts:6", "link", "linkondial", "watchclose"} {
 		for rep := 0; rep < mreps; rep++ {
 			at := 4*time.Second + time.Duration(rr.Int63n(int64(8*time.Second)))
 			run(fmt.Sprintf("monfault/%s/%d", k, rep), fault{k, at}, false, 0, rr.Int63n(1e9))
